@@ -239,4 +239,34 @@ theorem dropped_iff (o : Opts) (t : List Rec) (hne : t ≠ []) (hc : ∀ r ∈ t
       have : total (x :: y :: rs') ≠ 1 := by simp [total]; omega
       simp [this]
 
+/-! ## hypotheses and small facts used by `Props/C06.lean` -/
+
+structure InputOK (o : Opts) (input : List Rec) : Prop where
+  stats_nodup : o.stats.Nodup
+  counts : ∀ r ∈ input, 1 ≤ r.count
+  wf : ∀ r ∈ input, r.WF
+
+theorem InputOK.perm {o : Opts} {input input' : List Rec} (ok : InputOK o input) (hp : input'.Perm input) :
+    InputOK o input' :=
+  ⟨ok.stats_nodup, fun r hr => ok.counts r (hp.mem_iff.mp hr), fun r hr => ok.wf r (hp.mem_iff.mp hr)⟩
+
+/-- the weight the `merged_<k>` map of `r` gives to `v` (0 if `r` has no such map) -/
+def mweight (r : Rec) (k v : String) : Nat := weight ((r.merged.lookup k).getD []) v
+
+theorem not_dropped_of_all {o : Opts} (hns : o.noSingleton = false) (t : List Rec) : dropped o t = false := by
+  simp [dropped, hns]
+
+theorem total_filter_split (l : List Rec) :
+    total (l.filter (fun out => decide (out.count ≠ 1))) +
+      (l.filter (fun out => decide (out.count = 1))).length = total l := by
+  induction l with
+  | nil => rfl
+  | cons x t ih =>
+    by_cases hx : x.count = 1
+    · simp [hx, total] at ih ⊢; omega
+    · simp [hx, total] at ih ⊢; omega
+
+theorem classOf_perm (o : Opts) {input input' : List Rec} (hp : input'.Perm input) (κ : Seq × List String) :
+    (classOf o input' κ).Perm (classOf o input κ) := hp.filter _
+
 end ObiVerif.Uniq
